@@ -16,7 +16,7 @@ PROPS = {
                 scenarios=["s01", "s03", "s04", "s05", "s06", "s08", "s09", "s20"]),
     "C04": dict(props="Props/C04.v", runner="conc",
                 families=["basic", "mixed", "cas", "helping", "multi"],
-                scenarios=["s05", "s07", "s08", "s09", "s13", "s14", "s19"], deep=["s19"]),
+                scenarios=["s05", "s07", "s08", "s09", "s13", "s14", "s19"], deep=["s19"], litmus=True),
     "C05": dict(props="Props/C05.v", runner="conc",
                 families=["cas", "mixed", "multi"], scenarios=["s08", "s09", "s19"], deep=["s19"]),
     "C06": dict(props="Props/C06.v", runner="conc",
